@@ -85,7 +85,7 @@ func vCheckC01(out *vOutcome) []vViol {
 	return vs
 }
 
-var vProfileC01 = vProfile{name: "c01", blockLoads: true, queueFull: 0, multiGPU: 15, optVariants: true}
+var vProfileC01 = vProfile{name: "c01", blockLoads: true, queueFull: 0, multiGPU: 15, optVariants: true, lateLoad: 100}
 
 func vRunSched(t *testing.T, prop string, profile vProfile, nQuick, nThorough int, rule string,
 	check func(h *vHistory, out *vOutcome) []vViol) {
